@@ -46,22 +46,22 @@ type Node struct {
 }
 
 // Constructors.
-func Int(v int64) *Node         { return &Node{K: KInt, I: v} }
-func Bool(b bool) *Node         { return &Node{K: KBool, B: b} }
-func Id(name string) *Node      { return &Node{K: KIdent, Op: name} }
-func Str(s string) *Node        { return &Node{K: KStr, Op: s} }
+func Int(v int64) *Node    { return &Node{K: KInt, I: v} }
+func Bool(b bool) *Node    { return &Node{K: KBool, B: b} }
+func Id(name string) *Node { return &Node{K: KIdent, Op: name} }
+func Str(s string) *Node   { return &Node{K: KStr, Op: s} }
 func Bin(op string, l, r *Node) *Node {
 	if IsAssignOp(op) {
 		return &Node{K: KAssign, Op: op, Kids: []*Node{l, r}}
 	}
 	return &Node{K: KBin, Op: op, Kids: []*Node{l, r}}
 }
-func Cast(b *Node, typ string) *Node   { return &Node{K: KCast, Op: typ, Kids: []*Node{b}} }
-func Prefix(op string, b *Node) *Node  { return &Node{K: KPrefix, Op: op, Kids: []*Node{b}} }
+func Cast(b *Node, typ string) *Node    { return &Node{K: KCast, Op: typ, Kids: []*Node{b}} }
+func Prefix(op string, b *Node) *Node   { return &Node{K: KPrefix, Op: op, Kids: []*Node{b}} }
 func Call(f *Node, args ...*Node) *Node { return &Node{K: KCall, Kids: append([]*Node{f}, args...)} }
-func Index(b, i *Node) *Node           { return &Node{K: KIndex, Kids: []*Node{b, i}} }
+func Index(b, i *Node) *Node            { return &Node{K: KIndex, Kids: []*Node{b, i}} }
 func Member(b *Node, name string) *Node { return &Node{K: KMember, Op: name, Kids: []*Node{b}} }
-func List(el ...*Node) *Node           { return &Node{K: KList, Kids: el} }
+func List(el ...*Node) *Node            { return &Node{K: KList, Kids: el} }
 
 // ---------------------------------------------------------------------------------------------
 // The operator table of property C07 (lowest binding first):
